@@ -3627,9 +3627,9 @@ THEOREMS.update({
                                "Dirk.Dkg.C17_kernel_is_source", "Dirk.Dkg.C17_legacy_counterexample"]),
     "C03": ("Dirk.Props.C03", ["Dirk.C03_recorded_before_release", "Dirk.C03_refuses_after_crash", "Dirk.C03_released_never_slashable",
                                "Dirk.facts_sync_writes", "Dirk.facts_store_options", "Dirk.facts_action_bytes", "Dirk.facts_result_switches_total"]),
-    "C04": ("Dirk.Props.C04", ["Dirk.Conc.C04_mutual_exclusion", "Dirk.Conc.C04_commit_atomic", "Dirk.Conc.C04_linearizable",
+    "C04": ("Dirk.Props.LockProtocolSource", ["Dirk.C04_lock_protocol_is_source", "Dirk.C15_distinct_keys_is_source", "Dirk.C04_rules_path_is_source", "Dirk.Conc.C04_mutual_exclusion", "Dirk.Conc.C04_commit_atomic", "Dirk.Conc.C04_linearizable",
                                "Dirk.Conc.C04_real_time_order", "Dirk.C04_footprint_attest", "Dirk.C04_trace_is_protocol"]),
-    "C15": ("Dirk.Props.C15", ["Dirk.Conc.C15_progress", "Dirk.Conc.C15_measure", "Dirk.Conc.C15_complete", "Dirk.Conc.C15_needs_global"]),
+    "C15": ("Dirk.Props.LockProtocolSource", ["Dirk.C04_lock_protocol_is_source", "Dirk.C15_distinct_keys_is_source", "Dirk.Conc.C15_progress", "Dirk.Conc.C15_measure", "Dirk.Conc.C15_complete", "Dirk.Conc.C15_needs_global"]),
     "C08": ("Dirk.Props.C08Bind", ["Dirk.C08_batch_pointwise", "Dirk.C08_leaves_injective", "Dirk.C08_header_leaves_injective",
                                    "Dirk.C08_signed_root", "Dirk.C08_att_root_binds", "Dirk.C08_header_root_binds", "Dirk.C08_generic_root_binds",
                                    "Dirk.C08_digest_length"]),
@@ -3640,7 +3640,7 @@ THEOREMS.update({
     "C10": ("Dirk.Props.C10", ["Dirk.C10_never_lowers", "Dirk.C10_protects", "Dirk.C10_composes", "Dirk.C10_range_any", "Dirk.C10_import_command_keeps_invariants", "Dirk.C10_kernel_is_source", "Dirk.facts_store_options", "Dirk.C10_refuses_after_prop",
                                "Dirk.C10_refuses_after_att", "Dirk.C10_bad_metadata", "Dirk.C10_parse_error_no_change",
                                "Dirk.C10_legacy_counterexample"]),
-    "C07": ("Dirk.Props.C07Refine", ["Dirk.C07_kernel_is_source", "Dirk.C07_check_refines_spec", "Dirk.C07_served_has_bearing", "Dirk.C07_scan_eq_spec", "Dirk.C07_default_deny", "Dirk.C07_unknown_client", "Dirk.C07_no_identity",
+    "C07": ("Dirk.Props.C07Refine", ["Dirk.C07_kernel_is_source", "Dirk.C07_precheck_is_source", "Dirk.C07_check_refines_spec", "Dirk.C07_served_has_bearing", "Dirk.C07_scan_eq_spec", "Dirk.C07_default_deny", "Dirk.C07_unknown_client", "Dirk.C07_no_identity",
                                "Dirk.C07_refused_no_effect_att", "Dirk.C07_refused_no_effect_prop", "Dirk.C07_refused_no_effect_sign",
                                "Dirk.C07_refused_no_effect_atts", "Dirk.C07_resolved_account", "Dirk.C07_legacy_counterexample",
                                "Dirk.C07_fixed_alternation", "Dirk.C07_whole_name", "Dirk.C07_entry_matches_spec",
